@@ -10,7 +10,8 @@ META = {
     "tag_request_path over the tag grammar (name lengths, 0-3 indices per level around the 8/16-bit boundaries, 0-3 member "
     "levels, program scope, symbolic and 8/16/32-bit symbol-instance addressing); port segments for ports 1..14, every "
     "alias, larger numbers, links 0..255, numeric strings, dotted quads of every length class; symbolic data segments. "
-    "Route histories on a live driver (shared with C14): after every sequence of 2 (thorough 3) helper operations the Unconnected Send route "
+    "Whole uploads (P1/P2/P3/P4 on v20/v32/Micro800): every request path as parsed by the target denotes an object of the project, the Forward Open and Forward Close "
+    "connection paths are the driver's route. Route histories on a live driver (shared with C14): after every sequence of 2 (thorough 3) helper operations the Unconnected Send route "
     "and the Forward Open connection path must still denote the configured route. Every emitted path is parsed by vmc/ref/epath.py and must yield exactly the intended segments. distinct = distinct input.",
     "explanation": "bounded-exhaustive enumeration, one path-builder call per case",
     "assumptions": [
